@@ -66,6 +66,12 @@ type vCluster struct {
 	// the cluster: addresses of its nsqlookupds and nsqds (all nsqds produce topic/channel)
 	lookupdAddrs []string
 	nsqdAddrs    []string
+	// nsqds of the same cluster that do NOT produce `topic` (they produce vOtherTopic): known to
+	// every nsqlookupd (/nodes) and, in --nsqd-http-address mode, configured like the others
+	idleAddrs []string
+	// what each nsqlookupd knows: vViewAll = every producer is registered with every nsqlookupd,
+	// vViewSplit = producer j is registered only with nsqlookupd j mod L (the union matters)
+	view int
 	// configuration handed to nsqadmin (--lookupd-http-address or --nsqd-http-address)
 	lookupds []string
 	nsqds    []string
@@ -96,36 +102,130 @@ var vKindPath = map[string]string{
 	"TombstoneNodeForTopic": "/topic/tombstone",
 }
 
+// Topologies of the nsqd addresses (broadcast address x HTTP port). nsqd i gets host index and
+// port index:
+//   vHostsDiffer: (i, 0)      every nsqd on its own host, all on the same port
+//   vPortsDiffer: (0, i)      every nsqd on the SAME host (same broadcast address), own port
+//   vMixed:       (i%2, i/2)  two hosts, nsqd 0/1 share the port, nsqd 0/2 share the host
+// Under gosmt host h is "nsqd<h>" and port p is 4151+p; natively host h is 127.0.0.<1+h> and the
+// port of index p is whatever the kernel handed out for the first listener of that index.
+const (
+	vHostsDiffer = iota
+	vPortsDiffer
+	vMixed
+)
+
+const (
+	vViewAll = iota
+	vViewSplit
+)
+
+const vOtherTopic = "zz"
+
+func vTopo(layout, i int) (int, int) {
+	switch layout {
+	case vPortsDiffer:
+		return 0, i
+	case vMixed:
+		return i % 2, i / 2
+	}
+	return i, 0
+}
+
+// vListen: a loopback listener on host index h with the port of index p (same index => same
+// port number on different loopback addresses).
+func vListen(h, p int, ports map[int]int) net.Listener {
+	host := "127.0.0." + strconv.Itoa(1+h)
+	if port, ok := ports[p]; ok {
+		if l, err := net.Listen("tcp", host+":"+strconv.Itoa(port)); err == nil {
+			return l
+		}
+	}
+	l, err := net.Listen("tcp", host+":0")
+	if err != nil {
+		l, err = net.Listen("tcp", "127.0.0.1:0")
+		if err != nil {
+			panic(err)
+		}
+	}
+	if _, ok := ports[p]; !ok {
+		_, ps := vHostPort(l.Addr().String())
+		ports[p], _ = strconv.Atoi(ps)
+	}
+	return l
+}
+
 // vBuildCluster: nLookupd nsqlookupds (0 = nsqadmin runs in --nsqd-http-address mode) and nNsqd
-// nsqds, each producing topic `topic` with channel `channel`. Natively they are loopback servers.
+// nsqds on distinct hosts, each producing topic `topic` with channel `channel`.
 func vBuildCluster(nLookupd, nNsqd int, topic, channel string) *vCluster {
+	return vBuildClusterTopo(nLookupd, nNsqd, 0, vHostsDiffer, topic, channel)
+}
+
+// vBuildClusterTopo: the same with nIdle more nsqds that do not produce `topic`, and the nsqd
+// addresses laid out as `layout` says. Natively they are loopback servers.
+func vBuildClusterTopo(nLookupd, nNsqd, nIdle, layout int, topic, channel string) *vCluster {
 	u := &vCluster{topic: topic, channel: channel}
 	if verifrt.Symbolic() {
-		for i := 0; i < nNsqd; i++ {
-			u.nsqdAddrs = append(u.nsqdAddrs, "nsqd"+strconv.Itoa(i)+":4151")
+		for i := 0; i < nNsqd+nIdle; i++ {
+			h, p := vTopo(layout, i)
+			addr := "nsqd" + strconv.Itoa(h) + ":" + strconv.Itoa(4151+p)
+			if i < nNsqd {
+				u.nsqdAddrs = append(u.nsqdAddrs, addr)
+			} else {
+				u.idleAddrs = append(u.idleAddrs, addr)
+			}
 		}
 		for i := 0; i < nLookupd; i++ {
 			u.lookupdAddrs = append(u.lookupdAddrs, "lookupd"+strconv.Itoa(i)+":4161")
 		}
 	} else {
-		for i := 0; i < nNsqd+nLookupd; i++ {
-			srv := httptest.NewUnstartedServer(nil)
-			addr := srv.Listener.Addr().String()
-			srv.Config.Handler = http.HandlerFunc(func(w http.ResponseWriter, r *http.Request) { u.serve(addr, w, r) })
+		ports := map[int]int{}
+		for i := 0; i < nNsqd+nIdle+nLookupd; i++ {
+			var l net.Listener
+			if i < nNsqd+nIdle {
+				h, p := vTopo(layout, i)
+				l = vListen(h, p, ports)
+			} else {
+				l = vListen(0, -1-i, ports)
+			}
+			addr := l.Addr().String()
+			srv := &httptest.Server{Listener: l, Config: &http.Server{Handler: http.HandlerFunc(func(w http.ResponseWriter, r *http.Request) { u.serve(addr, w, r) })}}
 			srv.Start()
 			u.servers = append(u.servers, srv)
-			if i < nNsqd {
+			switch {
+			case i < nNsqd:
 				u.nsqdAddrs = append(u.nsqdAddrs, addr)
-			} else {
+			case i < nNsqd+nIdle:
+				u.idleAddrs = append(u.idleAddrs, addr)
+			default:
 				u.lookupdAddrs = append(u.lookupdAddrs, addr)
 			}
 		}
 	}
 	u.lookupds = u.lookupdAddrs
 	if nLookupd == 0 {
-		u.nsqds = u.nsqdAddrs
+		u.nsqds = append(append([]string{}, u.nsqdAddrs...), u.idleAddrs...)
 	}
 	return u
+}
+
+func vIndexOf(l []string, s string) int {
+	for i, e := range l {
+		if e == s {
+			return i
+		}
+	}
+	return -1
+}
+
+// registered: does nsqlookupd `lookupd` know producing nsqd j? (an address that is not one of
+// the cluster's nsqlookupds knows nothing)
+func (u *vCluster) registered(lookupd string, j int) bool {
+	li := vIndexOf(u.lookupdAddrs, lookupd)
+	if li < 0 {
+		return false
+	}
+	return u.view == vViewAll || j%len(u.lookupdAddrs) == li
 }
 
 // vNewCluster: recorder at the clusterinfo level (one nsqd producing "t"/"c").
@@ -151,11 +251,11 @@ func vHostPort(addr string) (string, string) {
 	return h, p
 }
 
-// producerJSON: what an nsqlookupd reports about nsqd i
-func (u *vCluster) producerJSON(i int) string {
-	h, p := vHostPort(u.nsqdAddrs[i])
+// vProducerJSON: what an nsqlookupd reports about the nsqd at addr producing topic
+func vProducerJSON(addr, topic string) string {
+	h, p := vHostPort(addr)
 	return `{"remote_address":"127.0.0.1:9","hostname":"h","broadcast_address":"` + h + `","tcp_port":4150,"http_port":` + p +
-		`,"version":"1.0.0","topics":["` + u.topic + `"],"tombstones":[false]}`
+		`,"version":"1.0.0","topics":["` + topic + `"],"tombstones":[false]}`
 }
 
 // serve: the native nsqlookupd / nsqd (the role is decided by the path asked for).
@@ -175,19 +275,31 @@ func (u *vCluster) serve(addr string, w http.ResponseWriter, r *http.Request) {
 		io.WriteString(w, "{}")
 		return
 	}
-	producers := ""
-	for i := range u.nsqdAddrs {
-		if i > 0 {
-			producers += ","
+	// the producers of the cluster's topic this nsqlookupd knows, and every node it knows
+	producers, nodes := "", ""
+	for j, a := range u.nsqdAddrs {
+		if u.registered(addr, j) {
+			if producers != "" {
+				producers += ","
+			}
+			producers += vProducerJSON(a, u.topic)
 		}
-		producers += u.producerJSON(i)
 	}
+	nodes = producers
+	for _, a := range u.idleAddrs {
+		if nodes != "" {
+			nodes += ","
+		}
+		nodes += vProducerJSON(a, vOtherTopic)
+	}
+	idle := vIndexOf(u.idleAddrs, addr) >= 0
 	h, port := vHostPort(addr)
 	switch r.URL.Path {
 	case "/lookup":
+		// (the producing nsqds produce whatever topic is asked about)
 		io.WriteString(w, `{"channels":["`+u.channel+`"],"producers":[`+producers+`]}`)
 	case "/nodes":
-		io.WriteString(w, `{"producers":[`+producers+`]}`)
+		io.WriteString(w, `{"producers":[`+nodes+`]}`)
 	case "/topics":
 		io.WriteString(w, `{"topics":["`+u.topic+`"]}`)
 	case "/channels":
@@ -195,10 +307,18 @@ func (u *vCluster) serve(addr string, w http.ResponseWriter, r *http.Request) {
 	case "/info":
 		io.WriteString(w, `{"version":"1.0.0","broadcast_address":"`+h+`","hostname":"h","tcp_port":4150,"http_port":`+port+`}`)
 	case "/stats":
-		// every nsqd of this cluster produces the topic it is asked about
+		// every producing nsqd of this cluster produces the topic it is asked about; an idle one
+		// only has vOtherTopic (nsqd's /stats?topic=X lists X alone, or nothing)
 		tn := u.topic
 		if q.Get("topic") != "" {
 			tn = q.Get("topic")
+		}
+		if idle {
+			if q.Get("topic") != "" && q.Get("topic") != vOtherTopic {
+				io.WriteString(w, `{"version":"1.0.0","health":"OK","start_time":1,"topics":[]}`)
+				return
+			}
+			tn = vOtherTopic
 		}
 		io.WriteString(w, `{"version":"1.0.0","health":"OK","start_time":1,"topics":[{"topic_name":"`+tn+
 			`","depth":0,"backend_depth":0,"message_count":3,"paused":false,"e2e_processing_latency":{"count":0,"percentiles":null},"channels":[{"channel_name":"`+u.channel+
@@ -384,7 +504,21 @@ func (u *vCluster) stubClusterinfo() {
 // cluster's HTTP surface (POST: record the endpoint, fail if the upstream is the faulty one; GET:
 // answer /lookup, /info, /stats the way nsqlookupd and nsqd do, through the json model).
 func vNewClusterHTTP(nLookupd, nNsqd int) *vCluster {
-	u := vBuildCluster(nLookupd, nNsqd, "tt", "cc")
+	return vNewClusterHTTPTopo(nLookupd, nNsqd, 0, vHostsDiffer, vViewAll)
+}
+
+// vEndpointAddr: host:port of "http://host:port/..."
+func vEndpointAddr(endpoint string) string {
+	e := strings.TrimPrefix(endpoint, "http://")
+	if i := strings.IndexByte(e, '/'); i >= 0 {
+		e = e[:i]
+	}
+	return e
+}
+
+func vNewClusterHTTPTopo(nLookupd, nNsqd, nIdle, layout, view int) *vCluster {
+	u := vBuildClusterTopo(nLookupd, nNsqd, nIdle, layout, "tt", "cc")
+	u.view = view
 	if !verifrt.Symbolic() {
 		return u
 	}
@@ -410,31 +544,53 @@ func vNewClusterHTTP(nLookupd, nNsqd int) *vCluster {
 		type topic struct {
 			Name string `json:"topic_name"`
 		}
+		mk := func(a, tn string) producer {
+			h, p := vHostPort(a)
+			port, _ := strconv.Atoi(p)
+			return producer{"127.0.0.1:9", "h", h, 4150, port, "1.0.0", []string{tn}, []bool{false}}
+		}
+		addr := vEndpointAddr(endpoint)
 		var doc []byte
 		switch {
 		case strings.Contains(endpoint, "/lookup?"):
-			var ps []producer
-			for _, a := range u.nsqdAddrs {
-				h, _ := vHostPort(a)
-				ps = append(ps, producer{"127.0.0.1:9", "h", h, 4150, 4151, "1.0.0", []string{u.topic}, []bool{false}})
+			if vIndexOf(u.lookupdAddrs, addr) < 0 {
+				return errors.New("got response 404 Not Found")
+			}
+			ps := []producer{}
+			for j, a := range u.nsqdAddrs {
+				if u.registered(addr, j) {
+					ps = append(ps, mk(a, u.topic))
+				}
 			}
 			doc, _ = json.Marshal(struct {
 				Channels  []string   `json:"channels"`
 				Producers []producer `json:"producers"`
 			}{[]string{u.channel}, ps})
 		case strings.HasSuffix(endpoint, "/info"):
-			h, _ := vHostPort(strings.TrimSuffix(strings.TrimPrefix(endpoint, "http://"), "/info"))
+			if vIndexOf(u.nsqdAddrs, addr) < 0 && vIndexOf(u.idleAddrs, addr) < 0 {
+				return errors.New("got response 404 Not Found")
+			}
+			h, p := vHostPort(addr)
+			port, _ := strconv.Atoi(p)
 			doc, _ = json.Marshal(struct {
 				Version          string `json:"version"`
 				BroadcastAddress string `json:"broadcast_address"`
 				Hostname         string `json:"hostname"`
 				HTTPPort         int    `json:"http_port"`
 				TCPPort          int    `json:"tcp_port"`
-			}{"1.0.0", h, "h", 4151, 4150})
+			}{"1.0.0", h, "h", port, 4150})
 		case strings.Contains(endpoint, "/stats?"):
+			// /stats?topic=<the cluster's topic>: a producing nsqd lists it, an idle one lists nothing
+			ts := []topic{}
+			switch {
+			case vIndexOf(u.nsqdAddrs, addr) >= 0:
+				ts = append(ts, topic{u.topic})
+			case vIndexOf(u.idleAddrs, addr) < 0:
+				return errors.New("got response 404 Not Found")
+			}
 			doc, _ = json.Marshal(struct {
 				Topics []topic `json:"topics"`
-			}{[]topic{{u.topic}}})
+			}{ts})
 		default:
 			return errors.New("got response 404 Not Found")
 		}
